@@ -191,6 +191,23 @@ CLAIMS = {
         "Don't-care bands: distances within 1e-6 below the minimum, radii within 1e-14 relative of the maximum.",
         "DESIGN.md §3 C12",
     ),
+    "C14": (
+        "exploration",
+        "exhaustive grids for the filter axioms and the fall-time clause (judged by an independent non-circular Gaussian "
+        "convolution) plus a modulated-sampling monitor on every state of a call-history BFS",
+        "Filter axioms for bandwidth {2,8,30,100} MHz x input length {1,2,3,16,100,401} x keep_ends x EOM x 9 input families: "
+        "output length = input + 2 rise times, finite, integral preserved (1e-9), no negative output from non-negative input, "
+        "no overshoot, pairwise linearity, tone at the bandwidth halved. Fall-time clause for bandwidth {2,4,8,30} (+4 more in "
+        "thorough) x duration {16,52,100,401} x amplitude {0.1,1,20} x 11 amplitude and 6 detuning shapes (incl. composites "
+        "ending in a short zero / low hold and sign-changing ramps) and EOM bandwidths 20/40: the true output beyond duration + "
+        "Pulse.fall_time stays below max(0.01, 0.6 % of peak). Sequences: modulated sampling succeeds whenever plain sampling "
+        "does and every array ends at the channel duration including fall time, on every state of a depth 2-3 BFS (empty "
+        "channels, channels without bandwidth, open EOM blocks, DMM).",
+        "Reference filter = Gaussian impulse response of the documented transfer function on a zero-padded input; bandwidths "
+        "where int() truncation of the rise time loses > 3 % (37, 44, 49 ... 100 MHz) exceed the 0.6 % clause by design margin "
+        "and are not in the grid (DESIGN.md Appendix B #13).",
+        "DESIGN.md §3 C14",
+    ),
 }
 
 PENDING_REASON = "check not built yet in this round (design in DESIGN.md §3); nothing is claimed for it"
